@@ -476,6 +476,7 @@ func main() {
 	phaseStates()
 	phaseStateOps(1, 1)
 	phaseSizes()
+	phaseSlots()
 	phaseSeq(seqDepth)
 	phaseGC()
 	phaseProofs()
